@@ -346,11 +346,11 @@ def report(run, res, items, prefix):
         rs.sort(key=lambda r: (r["event"]["bodylen"], r["event"]["b"], r["event"]["frame"], r["event"]["backend"]))
         first = rs[0]["event"]
         it = items[(first["b"], first["frame"] == "hdr")]
-        bodies = sorted({(r["event"]["b"], r["event"]["frame"] == "hdr") for r in rs})
+        pairs = sorted({(r["event"]["b"], r["event"]["frame"] == "hdr") for r in rs})
+        bodies = {b for b, _ in pairs}
         what = "%s: %s: relation(s) %s rejected by TLC; e.g. body %s = %s (%s framing, %s store); %d observation(s) of %d distinct bod(ies) in this run are rejected with this cause" % (
             prefix, why, ", ".join(failed), first["b"], show_body(it), first["frame"], first["backend"], len(rs), len(bodies))
-        small = [items[b] for b in bodies[:8]]
-        bodies = {b for b, _ in bodies}
+        small = [items[b] for b in pairs[:8]]
         run.violation(what, {"item": it, "store": first["backend"], "observation": first, "failed": list(failed),
                              "same_cause_observations": len(rs), "same_cause_bodies": len(bodies),
                              "more_examples": [{"b": x["b"], "frame": "hdr" if x["frame"] else "raw", "body": show_body(x), "cls": x.get("cls")} for x in small],
